@@ -52,6 +52,8 @@ for i in ids:
                 subprocess.run(['git', '-C', '/repo', 'checkout', '--', '.'])
             else:
                 shutil.rmtree(f'/verif/build/scratch/seed-{i}', ignore_errors=True)
+                import hashlib
+                shutil.rmtree('/verif/build/units-' + hashlib.sha1(scratch.encode()).hexdigest()[:8], ignore_errors=True)
     json.dump(meta, open(f'{d}/meta.json', 'w'), indent=1)
     rows.append((i, meta))
     print(i, {p: v.get('verdict') for p, v in meta['checks'].items() if isinstance(v, dict)})
